@@ -222,6 +222,19 @@ class Recorder:
                 t.center_of_mass()
             elif what == 'repr':
                 repr(t)
+            elif what == 'transitions':
+                from pymatgen.core import Structure
+                syms = sorted({s.symbol for s in t.species})
+                st = Structure(lattice=t.get_lattice(), species=[syms[0]] * 2, coords=[[0.1, 0.1, 0.1], [0.6, 0.6, 0.6]], labels=['A', 'B'])
+                tr = t.transitions_between_sites(st, syms[0], site_radius=1.5)
+                tr.states, tr.events, tr.occupancy()
+            elif what == 'rdf':
+                from gemdat.rdf import radial_distribution_between_species
+                syms = sorted({s.symbol for s in t.species})
+                radial_distribution_between_species(trajectory=t, specie_1=syms[0], specie_2=syms[-1], max_dist=3.0, resolution=0.5)
+            elif what == 'metrics2':
+                m = t.metrics()
+                m.vibration_amplitude(), m.attempt_frequency(), m.tracer_diffusivity_center_of_mass(dimensions=2), m.amplitudes()
         except Exception as e:           # an exception from a read-only query is not C15's business
             what = what + ':' + type(e).__name__
         self.log('ReadOnly', i=i + 1, what=what)
@@ -346,7 +359,7 @@ def random_behaviour(b, rng, family, orientation, n_steps, acts, max_objs=6, Tma
             j = int(rng.integers(0, len(rec.objs)))
             ok = rec.extend(i, j)
         elif act == 'ReadOnly':
-            rec.read_only(i, str(rng.choice(['msd', 'volume', 'metrics', 'len', 'structure', 'com', 'repr'])))
+            rec.read_only(i, str(rng.choice(['msd', 'volume', 'metrics', 'len', 'structure', 'com', 'repr', 'transitions', 'rdf', 'metrics2'])))
         elif act == 'Drift':
             ok = rec.drift(i, str(rng.choice(['fixed', 'floating', 'none'])))
         elif act == 'ApplyDrift':
